@@ -12,6 +12,7 @@ RULE = ("Generated bar-shaped episodes with pairwise-distinct actions (action k 
         "sequence == d nulls + submitted prefix), every trade priced at the side-appropriate price of the last input quote stamped <= t+latency "
         "(integer microseconds), info['_rebalancing'] is the last track-record entry. Non-trivial = delay >= 1 and a quote inside the latency "
         "window (in particular exactly at the bound) before an execution.")
+RULE = RULE + (" long: the same on episodes of 20-50 timesteps over 4-8 contracts with delays up to 8 and up to 60 extra quotes.")
 ASSUMPTIONS = [
     "latency < minimum timestep gap; bar-shaped data",
     "discrete spaces: the null action is action 0 (statement), allocations are pairwise distinct",
